@@ -15,7 +15,7 @@ from lib.common import cps
 
 PROP = 'C11'
 LEVEL = 'proof'
-PROPS_MODULES = ['RTV.Props.C11', 'RTV.Props.C11Holiday']
+PROPS_MODULES = ['RTV.Props.C11', 'RTV.Props.C11Holiday', 'RTV.Props.C11Range']
 GEN = ['chartables', 'durationmaps', 'holiday']
 REQUIRED_THEOREMS = ['format_date_wellformed', 'format_time_wellformed', 'format_datetime_wellformed', 'min_value_filtered',
                      'assembly_wellformed_date', 'assembly_wellformed_time', 'assembly_wellformed_datetime',
@@ -23,7 +23,8 @@ REQUIRED_THEOREMS = ['format_date_wellformed', 'format_time_wellformed', 'format
                      'definite_timex_value_date', 'type_name_agrees',
                      'holiday_values_wellformed', 'holiday_definite_agrees', 'holiday_values_sentinel_free',
                      'holiday_fn_never_raises', 'holiday_nth_weekday', 'holiday_last_weekday', 'holiday_tables_sane',
-                     'holiday_unknown_functions', 'holiday_get_day_shape']
+                     'holiday_unknown_functions', 'holiday_get_day_shape',
+                     'week_period_range_definite', 'periodOf_week', 'week_monday_year_slip_detected']
 RULE = ('every entity of recognize_datetime over all Python-supported DateTime Specs inputs (all cultures, own reference) and '
         'over generated English expressions × references in 1950..2090; non-trivial = distinct (culture, input, reference) '
         'that produced at least one entity with resolution values')
@@ -276,7 +277,7 @@ def holiday_level(ctx):
     ctx.extra['holiday_unknown_function_cases_skipped'] = unknown
 
 
-def judge(ctx, jobs, results, family):
+def judge(ctx, jobs, results, family, strict_periods=False):
     ents, meta = [], []
     none_res = 0
     for j, res in zip(jobs, results):
@@ -292,7 +293,8 @@ def judge(ctx, jobs, results, family):
             meta.append(j)
     ctx.extra['entities_with_resolution_none'] = ctx.extra.get('entities_with_resolution_none', 0) + none_res
     verdicts = dtcorpus.evaluate_wf(ents, with_sentinel=True)
-    for j, e, (tn_ok, vs) in zip(meta, ents, verdicts):
+    rdefs = dtcorpus.evaluate_rdef(ents, strict=strict_periods)
+    for j, e, (tn_ok, vs), rd in zip(meta, ents, verdicts, rdefs):
         ctx.nontriv((j[0], j[1], str(j[2])))
         problems = []
         if not tn_ok:
@@ -304,6 +306,8 @@ def judge(ctx, jobs, results, family):
                 problems.append('definite')
             if not sentinel:
                 problems.append('sentinel')
+        if not all(rd):
+            problems.append('range-definite')
         for kind in sorted(set(problems)):
             sig = '%s:%s' % (kind, dtcorpus.input_key(j[0], j[1]))
             ctx.report('property', sig, '%s %r (reference %s): entity %r type %s values %r violates %s' % (
@@ -331,7 +335,9 @@ def correspond(ctx):
     gj = dtcorpus.generated_jobs(ctx.rng('gen'), ctx.thorough)
     gres = dtpipe.run(gj)
     n2 = judge(ctx, gj, gres, 'generated expression')
-    ctx.extra['entities_judged'] = n1 + n2
+    pj = dtcorpus.period_boundary_jobs(ctx.thorough)
+    n3 = judge(ctx, pj, dtpipe.run(pj), 'period expression at a year/month turn', strict_periods=True)
+    ctx.extra['entities_judged'] = n1 + n2 + n3
     for j, r in list(zip(gj, gres))[:3]:
         if not isinstance(r, str) and r:
             ctx.sample({'culture': j[0], 'query': j[1], 'reference': str(j[2]), 'entities': r[:2]})
